@@ -133,6 +133,23 @@ func (w *world) randMd(rng *rand.Rand) *TxMd {
 func (w *world) nextStep(rng *rand.Rand) *Step {
 	cid, _ := w.st.CommittedAlh()
 	pid := w.st.LastPrecommittedTxID()
+	if w.reopenPct > 0 {
+		// prealloc-reopen family: Close/Open right after commits, so that a restart happens at every fill
+		// level of the preallocated commit-log chunks, in particular when the last slot of a chunk is used
+		if w.justCommitted && w.discards == 0 && rng.Intn(100) < w.reopenPct {
+			return &Step{Kind: "reopen"}
+		}
+		if rng.Intn(100) < 55 {
+			s := &Step{Kind: "pre", C: rng.Intn(4), Ents: w.randEnts(rng, 1+rng.Intn(2)), Ts: w.clock.Load() + int64(rng.Intn(3))}
+			if len(s.Ents[0].Val) > 64 {
+				s.Ents[0].Val = s.Ents[0].Val[:64]
+			}
+			return s
+		}
+		if w.cfg.Synced && rng.Intn(2) == 0 {
+			return &Step{Kind: "sync"}
+		}
+	}
 	ts := w.clock.Load() + int64(rng.Intn(3))
 	x := rng.Intn(100)
 	switch {
@@ -186,6 +203,11 @@ func (w *world) nextStep(rng *rand.Rand) *Step {
 		return &Step{Kind: "allow", N: n[rng.Intn(len(n))]}
 	case x < 90:
 		n := []uint64{0, cid, cid + 1, cid + 1, cid + 2, pid, pid, pid + 1}
+		if w.reopenPct > 0 {
+			// the family keeps the documented exclusion (no reopen of a preallocated store after a Discard
+			// that removed something) by never removing anything
+			n = []uint64{0, cid, pid + 1}
+		}
 		return &Step{Kind: "discard", N: n[rng.Intn(len(n))]}
 	case x < 92:
 		if w.cfg.Prealloc {
@@ -340,12 +362,15 @@ func (w *world) replStep(rng *rand.Rand, ts int64, mut string) *Step {
 }
 
 // runScript executes a script (generated on the fly when steps == nil) and records the case.
-func runScript(r *vk.Run, rng *rand.Rand, tag string, cfg Cfg, steps []*Step, nsteps int, bucketPfx string) error {
+func runScript(r *vk.Run, rng *rand.Rand, tag string, cfg Cfg, steps []*Step, nsteps int, bucketPfx string, opts ...func(*world)) error {
 	w, err := newWorld(r, tag, cfg)
 	if err != nil {
 		return err
 	}
 	defer w.close()
+	for _, o := range opts {
+		o(w)
+	}
 	var terms []string
 	var done []*Step
 	committedTxs, interesting := 0, false
@@ -368,7 +393,9 @@ func runScript(r *vk.Run, rng *rand.Rand, tag string, cfg Cfg, steps []*Step, ns
 			s = w.safeNext(rng)
 		}
 		before := w.discards
+		seenBefore := len(w.seen)
 		term, fatal := w.execSafe(s)
+		w.justCommitted = len(w.seen) > seenBefore && s.Kind != "reopen"
 		done = append(done, s)
 		if term != "" {
 			terms = append(terms, term)
@@ -416,6 +443,22 @@ func Gen(r *vk.Run, n int) error {
 		cfg := randCfg(r.Rng, i)
 		nsteps := 10 + r.Rng.Intn(26)
 		if err := runScript(r, r.Rng, fmt.Sprintf("seed %d script %d", r.Seed, i), cfg, nil, nsteps, "seq/"); err != nil {
+			return err
+		}
+	}
+	// prealloc-reopen family: preallocated small chunk files, a clean Close/Open after (almost) every commit
+	np := n/12 + 2
+	if thorough {
+		np = n/6 + 3
+	}
+	for i := 0; i < np; i++ {
+		cfg := randCfg(r.Rng, i)
+		cfg.Ext0, cfg.Prealloc = false, true
+		cfg.FileSize = []int{256, 512, 600}[r.Rng.Intn(3)]
+		pct := []int{100, 100, 60, 30}[r.Rng.Intn(4)]
+		nsteps := 40 + r.Rng.Intn(30)
+		if err := runScript(r, r.Rng, fmt.Sprintf("seed %d prealloc-reopen %d (FileSize %d)", r.Seed, i, cfg.FileSize), cfg, nil, nsteps, "pre/",
+			func(w *world) { w.reopenPct = pct }); err != nil {
 			return err
 		}
 	}
